@@ -27,6 +27,7 @@ pub fn run(name: &str, seed: u64, rest: &[String]) -> String {
         "mod_model" => mod_model(seed),
         "patch_verify" => patch_verify(seed),
         "chain_model" => chain_model(seed),
+        "chain_patch" => chain_patch(seed),
         "bsd0_total" => bsd0_total(seed),
         "dbc_header" => dbc_header(seed),
         "dbc_strings" => dbc_strings(seed),
@@ -1347,6 +1348,78 @@ fn chain_model(seed: u64) -> String {
         }
     }
     none("chain_model", tried)
+}
+
+/// C08, patch entries: a chain whose winning entry is a binary patch returns base + patches carrying the digest the winning patch
+/// declares, or an error - never bytes the winning patch does not vouch for (corrupt patch container, wrong base revision).
+/// Patch archives: a stored single-unit file `TPatchInfo || PTCH` whose block entry gets MPQ_FILE_PATCH_FILE (Cataclysm layout).
+fn chain_patch(seed: u64) -> String {
+    use wow_mpq::{Archive, ArchiveBuilder, PatchChain};
+    let mut rng = Rng(seed ^ 0x9C7A);
+    let dir = tempfile::tempdir().unwrap();
+    let name = "Data\\table.dbc";
+    let full = |file: &str, data: &[u8]| -> std::path::PathBuf {
+        let p = dir.path().join(file);
+        ArchiveBuilder::new().add_file_data(data.to_vec(), name).build(&p).unwrap();
+        p
+    };
+    let patch_archive = |file: &str, ptch_bytes: &[u8]| -> Result<std::path::PathBuf, String> {
+        let p = dir.path().join(file);
+        let mut body = Vec::new();
+        body.extend_from_slice(&28u32.to_le_bytes());
+        body.extend_from_slice(&0u32.to_le_bytes());
+        body.extend_from_slice(&(ptch_bytes.len() as u32).to_le_bytes());
+        body.extend_from_slice(&[0u8; 16]);
+        body.extend_from_slice(ptch_bytes);
+        ArchiveBuilder::new().add_file_data_with_options(body, name, 0, false, 0).add_file_data(file.as_bytes().to_vec(), "marker.txt").build(&p).map_err(|e| e.to_string())?;
+        let bi = { let a = Archive::open(&p).map_err(|e| e.to_string())?; a.find_file(name).map_err(|e| e.to_string())?.ok_or("entry missing")?.block_index };
+        let mut raw = std::fs::read(&p).unwrap();
+        let rd = |o: usize, raw: &[u8]| u32::from_le_bytes([raw[o], raw[o + 1], raw[o + 2], raw[o + 3]]);
+        let (bt, n) = (rd(0x14, &raw) as usize, rd(0x1c, &raw) as usize);
+        let words: Vec<u32> = (0..n * 4).map(|i| rd(bt + i * 4, &raw)).collect();
+        let key = hash(b"(block table)", 0x300);
+        let mut w = decrypt(&words, key);
+        w[bi * 4 + 3] |= 0x0010_0000;
+        let w = encrypt(&w, key);
+        for (i, x) in w.iter().enumerate() { raw[bt + i * 4..bt + i * 4 + 4].copy_from_slice(&x.to_le_bytes()); }
+        std::fs::write(&p, raw).unwrap();
+        Ok(p)
+    };
+    let mut tried = 0;
+    for round in 0..4 {
+        let old = rng.bytes(40 + round * 7);
+        let new1 = rng.bytes(60 + round * 3);
+        let other = rng.bytes(old.len()); // a different revision of the same length
+        let good = ptch(b"COPY", old.len() as u32, new1.len() as u32, md5_of(&old), md5_of(&new1), &new1, new1.len() as u32);
+        let base = full(&format!("base{}.mpq", round), &old);
+        let wrong_base = full(&format!("wrong{}.mpq", round), &other);
+        let pa = match patch_archive(&format!("patch{}.mpq", round), &good) { Ok(p) => p, Err(e) => return format!("{{\"oracle\":\"chain_patch\",\"error\":{:?}}}", e) };
+        // 1. well-formed chain: the patched content
+        tried += 1;
+        let mut c = PatchChain::new();
+        if let Err(e) = c.add_archive(&base, 0).and_then(|_| c.add_archive(&pa, 10)) { return fail("chain_patch", "add base + COPY patch archive".into(), format!("Err({})", e), "Ok".into()); }
+        match c.read_file(name) {
+            Ok(b) if b == new1 => {}
+            Ok(b) => return fail("chain_patch", format!("base ({} bytes, priority 0) + COPY patch archive (priority 10), read {:?}", old.len(), name), format!("{} bytes with digest {:02x?}", b.len(), md5_of(&b)), format!("the {} patched bytes, digest {:02x?}", new1.len(), md5_of(&new1))),
+            Err(e) => return fail("chain_patch", format!("base + well-formed COPY patch archive, read {:?}", name), format!("Err({})", e), "the patched bytes".into()),
+        }
+        // 2. wrong base revision: error, never bytes
+        tried += 1;
+        let mut c = PatchChain::new();
+        let _ = c.add_archive(&wrong_base, 0).and_then(|_| c.add_archive(&pa, 10));
+        if let Ok(b) = c.read_file(name) { if md5_of(&b) != md5_of(&new1) { return fail("chain_patch", "base of another revision (same length) + COPY patch archive".into(), format!("Ok({} bytes) not matching the digest the winning patch declares", b.len()), "Err".into()); } }
+        // 3. the winning patch container is damaged (signature, or truncated): error, never the bytes below it
+        for (what, bad) in [("PTCH signature overwritten", { let mut x = good.clone(); x[0] = b'X'; x }), ("PTCH stream truncated inside the MD5 block", good[..40].to_vec())] {
+            tried += 1;
+            let pb = match patch_archive(&format!("bad{}_{}.mpq", round, what.len()), &bad) { Ok(p) => p, Err(e) => return format!("{{\"oracle\":\"chain_patch\",\"error\":{:?}}}", e) };
+            let mut c = PatchChain::new();
+            let _ = c.add_archive(&base, 0).and_then(|_| c.add_archive(&pb, 10));
+            if let Ok(b) = c.read_file(name) {
+                return fail("chain_patch", format!("base ({} bytes, priority 0) + patch archive (priority 10) whose patch entry for {:?} has its {}", old.len(), name, what), format!("Ok({} bytes{}) - bytes the winning patch entry does not vouch for", b.len(), if b == old { " = the unpatched base" } else { "" }), "Err".into());
+            }
+        }
+    }
+    none("chain_patch", tried)
 }
 
 /// M2 fixed-size records: write(parse(bytes)) reproduces the bytes and the record size matches the version
